@@ -38,7 +38,7 @@ theorem operatorDescriptor_bitmapOp (P : Prims) (id : Nat) (h : isBitmapOpId id 
   rcases bitmapOp_cases id h with rfl | rfl | rfl | rfl | rfl <;> simp [operatorDescriptor]
 
 /-- the operator item: the boundary is its own position, the definition state machine is armed -/
-theorem Core.bitmapOp {P : Prims} {V : St → List Val} (hR : Rec P V) {s s' : St} {cs : List Nat}
+theorem Core.bitmapOp {P : Prims} {V : St → List Val} {X : St → Prop} (hR : Rec P V X) {s s' : St} {cs : List Nat}
     (hc : Core V s cs) (hst : Settled s) (id : Nat) (hid : isBitmapOpId id = true)
     (h : operatorDescriptor P id s = .ok s') :
     Core V s' cs ∧ s'.regs.bitmapDef = .indicator := by
@@ -105,7 +105,7 @@ theorem oper_facts (id : Nat) (v : Val) (h1 : id ∉ bitmapOpIds) :
     simp [qaStep, isOper, h2, elemClass?]
 
 /-- the member `237000` behind the operator: the definition is the one most recently built -/
-theorem Core.recall {P : Prims} {V : St → List Val} (hR : Rec P V) {s s1 s' : St} {cs : List Nat}
+theorem Core.recall {P : Prims} {V : St → List Val} {X : St → Prop} (hR : Rec P V X) {s s1 s' : St} {cs : List Nat}
     (hc : Core V s cs) (hind : s.regs.bitmapDef = .indicator)
     (h1 : bitmapDefinition P 237000 s = .ok s1) (h : operatorDescriptor P 237000 s1 = .ok s') :
     Core V s' cs ∧ s'.regs.bitmapDef = .na := by
@@ -143,7 +143,7 @@ theorem Core.recall {P : Prims} {V : St → List Val} (hR : Rec P V) {s s1 s' : 
     rfl
 
 /-- the member `236000` behind the operator -/
-theorem Core.reuse {P : Prims} {V : St → List Val} (hR : Rec P V) {s s1 s' : St} {cs : List Nat}
+theorem Core.reuse {P : Prims} {V : St → List Val} {X : St → Prop} (hR : Rec P V X) {s s1 s' : St} {cs : List Nat}
     (hc : Core V s cs) (hind : s.regs.bitmapDef = .indicator)
     (h1 : bitmapDefinition P 236000 s = .ok s1) (h : operatorDescriptor P 236000 s1 = .ok s') :
     Core V s' cs ∧ s'.regs.bitmapDef = .waiting ∧ ∀ c ∈ cs, c ≤ s'.regs.backBoundary := by
